@@ -403,7 +403,7 @@ func driver(seed uint64, n int, outV, outJSON string, _ []string) {
 		t.CloseIdleConnections()
 	}
 	leaked, sample := 0, ""
-	for i := 0; i < 100; i++ {
+	for i := 0; i < 1800; i++ { // up to 90 s on a heavily loaded machine; returns as soon as it is clean
 		leaked, sample = leakedGoroutines()
 		if leaked == 0 {
 			break
@@ -415,7 +415,7 @@ func driver(seed uint64, n int, outV, outJSON string, _ []string) {
 	}
 	e.closeAll()
 	fd1 := fd0
-	for i := 0; i < 100; i++ {
+	for i := 0; i < 1200; i++ {
 		fd1 = fdCount()
 		if fd1 <= fd0+8 {
 			break
